@@ -97,3 +97,44 @@ Example C05_fast_nonvacuous :
   check_fused_binary_flip_op_fast 3 A B None None None op_xor = Ok None.
 Proof. exact limit_fast_example. Qed.
 Print Assumptions C05_fast_nonvacuous.
+
+(* ---- the explicit-stack loops themselves, modelled iteration by iteration ----
+   Model/ApplyLimitStack.v: the loop of apply_with_flip_and_limit (the `limit == 0` pre-check, `return None` from the middle
+   of the body as soon as a pushed node makes the store larger than the limit, the final size check);
+   Model/DryStack.v: the loop of estimated_apply_complexity (pop first, visited set, both sub-tasks pushed unconditionally).
+   Both compute exactly what the recursive models above compute, for valid operands over the same variable count, any table
+   that answers on total inputs and ANY limit — for the dry run including which task exceeds the limit first, since the
+   LIFO order of the machine is the depth-first order of the recursion. *)
+From BddVerif Require Model.ApplyLimitStack Model.DryStack Proofs.ApplyLimitStack Proofs.DryStack.
+
+Theorem C05_limit_stack_machine_refines : forall A B fa fb fo op limit,
+  wf A -> wf B -> nvars A = nvars B -> total2 op ->
+  ApplyLimitStack.apply2_limit_stack A B fa fb fo op limit = apply2_limit A B fa fb fo op limit.
+Proof. exact Proofs.ApplyLimitStack.apply2_limit_stack_eq. Qed.
+Print Assumptions C05_limit_stack_machine_refines.
+
+Theorem C05_limit_stack_machine_api_refines : forall limit A B fa fb fo op,
+  wf A -> wf B -> total2 op ->
+  ApplyLimitStack.fused_binary_flip_op_with_limit_stack limit A B fa fb fo op = fused_binary_flip_op_with_limit limit A B fa fb fo op.
+Proof. exact Proofs.ApplyLimitStack.fused_binary_flip_op_with_limit_stack_eq. Qed.
+Print Assumptions C05_limit_stack_machine_api_refines.
+
+Theorem C05_limit_stack_machine_exact : forall A B fa fb fo op limit,
+  wf A -> wf B -> nvars A = nvars B -> flips_ok (nvars A) fa fb fo = true -> total2 op -> consistent2 op ->
+  exists r, fused_binary_flip_op A B fa fb fo op = Ok r /\
+    ApplyLimitStack.fused_binary_flip_op_with_limit_stack limit A B fa fb fo op = Ok (if size r <=? limit then Some r else None).
+Proof. exact Proofs.ApplyLimitStack.limit_exact_limit_stack. Qed.
+Print Assumptions C05_limit_stack_machine_exact.
+
+Theorem C05_dry_run_stack_machine_refines : forall A B fa fb fo op limit,
+  wf A -> wf B -> nvars A = nvars B -> total2 op ->
+  DryStack.dry_run_stack A B fa fb fo op limit = dry_run A B fa fb fo op limit.
+Proof. exact Proofs.DryStack.dry_run_stack_eq. Qed.
+Print Assumptions C05_dry_run_stack_machine_refines.
+
+Theorem C05_dry_run_stack_machine_exact : forall A B fa fb fo op,
+  wf A -> wf B -> nvars A = nvars B -> flips_ok (nvars A) fa fb fo = true -> total2 op -> consistent2 op ->
+  exists r c, fused_binary_flip_op A B fa fb fo op = Ok r /\ size r - 2 <= c /\
+    forall limit, DryStack.check_fused_binary_flip_op_stack limit A B fa fb fo op = Ok (if limit <? c then None else Some (negb (is_false r), c)).
+Proof. exact Proofs.DryStack.check_exact_stack. Qed.
+Print Assumptions C05_dry_run_stack_machine_exact.
